@@ -136,6 +136,12 @@ struct TaskRec {
     info: u64,
     slot: Arc<Slot>,
     name: &'static str,
+    /// OS thread id (0 = unknown), for the monitor
+    tid: u64,
+    /// detached, back from its real call, and seen to be back at a sampling step
+    ret_seen: bool,
+    /// /proc/self/task/<tid>/stat, kept open while the task lives
+    stat: Option<std::fs::File>,
 }
 
 struct State {
@@ -156,6 +162,11 @@ struct State {
     step_limit_hit: bool,
     /// nobody holds the baton: the only live task is executing a detached call
     baton_free: bool,
+    free_gen: u64,
+    /// identity of this run for the monitor
+    sim_gen: u64,
+    /// tasks detached by the monitor (blocked in the OS without saying so) and not back yet
+    implicit_out: u32,
 }
 
 pub struct Sim {
@@ -283,7 +294,45 @@ impl Sim {
             return;
         }
         let mut waited = 0u32;
+        let mut settle = 0u32;
+        let mut forced = false;
+        // Detached tasks are looked at (through /proc) at every fourth decision only, and a call
+        // that has come back although its wake condition does not hold is taken notice of at
+        // those decisions only: which decision sees it then does not depend on thread speed.
+        let mut sample = !cfg!(miri) && st.steps % 4 == 0;
         let next = loop {
+            if sample {
+                // A detached task (announced, or detached by the monitor) whose thread is not
+                // asleep in the kernel is on its way into or out of its real call: let it settle
+                // (block, or come back and re-attach) before deciding.
+                let mut unsettled = false;
+                for i in 0..st.live.len() {
+                    let t = st.live[i];
+                    if t == me || st.tasks[t].tid == 0 || !matches!(st.tasks[t].status, Status::Detached { returned: false, .. }) {
+                        continue;
+                    }
+                    if !task_asleep(&mut st.tasks[t]) {
+                        unsettled = true;
+                    }
+                }
+                if unsettled && settle < 4000 {
+                    drop(st);
+                    if settle < 8 {
+                        std::thread::yield_now();
+                    } else {
+                        std::thread::sleep(std::time::Duration::from_micros(25));
+                    }
+                    settle += 1;
+                    st = self.st.lock().unwrap();
+                    continue;
+                }
+                for i in 0..st.live.len() {
+                    let t = st.live[i];
+                    let back = matches!(st.tasks[t].status, Status::Detached { returned: true, .. });
+                    st.tasks[t].ret_seen = back;
+                }
+                sample = false;
+            }
             // options: current first (if runnable), then the others by id
             let mut opts: Vec<TaskView> = Vec::with_capacity(st.live.len());
             let mut me_view: Option<TaskView> = None;
@@ -293,7 +342,8 @@ impl Sim {
                     Status::Ready => (true, false),
                     Status::Running => (false, false),
                     Status::Blocked(_, c) => (c(), true),
-                    Status::Detached { cond, .. } => (cond(), true),
+                    // a call that has come back is runnable whatever the model of it says
+                    Status::Detached { cond, .. } => (rec.ret_seen || cond(), true),
                     Status::Done => (false, false),
                 };
                 if ok {
@@ -307,6 +357,12 @@ impl Sim {
             }
             if let Some(v) = me_view {
                 opts.insert(0, v);
+            }
+            if opts.is_empty() && !forced && !cfg!(miri) {
+                // nothing can run as far as this decision knows: look again, properly
+                forced = true;
+                sample = true;
+                continue;
             }
             if opts.is_empty() {
                 // A detached task that has physically returned although its wake
@@ -323,6 +379,29 @@ impl Sim {
                 // free; the task takes it back when it re-attaches.
                 if matches!(st.tasks[me].status, Status::Detached { returned: false, .. }) {
                     st.baton_free = true;
+                    st.free_gen += 1;
+                    let gen = st.free_gen;
+                    let sim = self.clone();
+                    drop(st);
+                    // Nobody holds the baton while the call is under way. If it does not come
+                    // back (same grace as below), nothing can ever run again: a deadlock, which
+                    // a monitor has to declare because every task is asleep.
+                    std::thread::spawn(move || {
+                        for _ in 0..40 {
+                            std::thread::sleep(std::time::Duration::from_millis(1));
+                            let st = sim.st.lock().unwrap();
+                            if !st.baton_free || st.free_gen != gen {
+                                return;
+                            }
+                        }
+                        let st = sim.st.lock().unwrap();
+                        if !st.baton_free || st.free_gen != gen {
+                            return;
+                        }
+                        let rep = make_report(&st, Outcome::Deadlock(describe_live(&st)));
+                        drop(st);
+                        fatal(&rep);
+                    });
                     return;
                 }
                 let any_detached = st
@@ -367,20 +446,7 @@ impl Sim {
                     self.fin.notify_all();
                     return;
                 }
-                let blocked: Vec<(TaskId, String)> = st
-                    .live
-                    .iter()
-                    .map(|&t| {
-                        let d = match &st.tasks[t].status {
-                            Status::Blocked(d, _) => format!("{}:blocked:{}", st.tasks[t].name, d),
-                            Status::Detached { desc, .. } => format!("{}:detached:{}", st.tasks[t].name, desc),
-                            Status::Ready => format!("{}:ready", st.tasks[t].name),
-                            Status::Running => format!("{}:running", st.tasks[t].name),
-                            Status::Done => "done".into(),
-                        };
-                        (t, d)
-                    })
-                    .collect();
+                let blocked = describe_live(&st);
                 let rep = make_report(&st, Outcome::Deadlock(blocked));
                 drop(st);
                 fatal(&rep);
@@ -437,6 +503,124 @@ pub(crate) fn fatal(rep: &Report) {
     std::process::exit(4);
 }
 
+
+// ------------------------------------------------------------------------------------------------
+// Monitor: a baton holder that blocks in the kernel without announcing it (`detached`) would
+// freeze the simulation. The monitor notices (no scheduler step, the holder asleep in the kernel
+// on four samples 25 ms apart), treats the holder as detached and lets the others go on. On a
+// tree whose only real blocking calls are the announced ones this never happens.
+
+const IMPLICIT_DESC: &str = "unannounced OS-level block";
+static SIM_GEN: AtomicU64 = AtomicU64::new(0);
+static IMPLICIT: AtomicU64 = AtomicU64::new(0);
+static WATCHED: Mutex<Option<Arc<Sim>>> = Mutex::new(None);
+static MONITOR: std::sync::Once = std::sync::Once::new();
+
+/// How often a blocked baton holder had to be detached by the monitor (whole process).
+pub fn implicit_detaches() -> u64 {
+    IMPLICIT.load(Ordering::Relaxed)
+}
+
+thread_local! {
+    static MY_TID: std::cell::Cell<u64> = const { std::cell::Cell::new(0) };
+}
+
+fn my_tid() -> u64 {
+    if cfg!(miri) {
+        return 0;
+    }
+    MY_TID.with(|t| {
+        if t.get() == 0 {
+            let v = std::fs::read_link("/proc/thread-self")
+                .ok()
+                .and_then(|p| p.file_name().and_then(|f| f.to_str()).and_then(|f| f.parse::<u64>().ok()))
+                .unwrap_or(0);
+            t.set(v);
+        }
+        t.get()
+    })
+}
+
+/// The same through a file that stays open (one `pread` per look).
+fn task_asleep(rec: &mut TaskRec) -> bool {
+    use std::os::unix::fs::FileExt;
+    if rec.stat.is_none() {
+        rec.stat = std::fs::File::open(format!("/proc/self/task/{}/stat", rec.tid)).ok();
+    }
+    let Some(f) = rec.stat.as_ref() else { return false };
+    let mut buf = [0u8; 96];
+    let Ok(n) = f.read_at(&mut buf, 0) else { return false };
+    // "<tid> (<comm>) <state> ...": comm is at most 15 bytes
+    match buf[..n].iter().rposition(|&b| b == b')') {
+        Some(i) if i + 2 < n => buf[i + 2] == b'S',
+        _ => false,
+    }
+}
+
+/// State 'S' (interruptible sleep) in /proc/self/task/<tid>/stat.
+fn thread_asleep(tid: u64) -> bool {
+    let Ok(t) = std::fs::read_to_string(format!("/proc/self/task/{}/stat", tid)) else { return false };
+    match t.rfind(')') {
+        Some(i) => t[i + 1..].trim_start().starts_with('S'),
+        None => false,
+    }
+}
+
+fn start_monitor() {
+    MONITOR.call_once(|| {
+        let _ = std::thread::Builder::new().name("detsim-monitor".into()).spawn(|| {
+            let mut last: (u64, u64, TaskId) = (0, 0, 0);
+            let mut stalls = 0u32;
+            loop {
+                std::thread::sleep(std::time::Duration::from_millis(25));
+                let Some(sim) = WATCHED.lock().unwrap().clone() else {
+                    stalls = 0;
+                    continue;
+                };
+                let mut st = sim.st.lock().unwrap();
+                let cur = st.current;
+                let key = (st.sim_gen, st.steps, cur);
+                let running = !st.finished && !st.baton_free && cur < st.tasks.len() && matches!(st.tasks[cur].status, Status::Running) && st.tasks[cur].tid != 0;
+                if !running || key != last {
+                    last = key;
+                    stalls = 0;
+                    continue;
+                }
+                if !thread_asleep(st.tasks[cur].tid) {
+                    stalls = 0;
+                    continue;
+                }
+                stalls += 1;
+                if stalls < 4 {
+                    continue;
+                }
+                stalls = 0;
+                st.tasks[cur].status = Status::Detached { desc: IMPLICIT_DESC, cond: Box::new(|| false), returned: false };
+                st.tasks[cur].ret_seen = false;
+                st.implicit_out += 1;
+                IMPLICIT.fetch_add(1, Ordering::Relaxed);
+                sim.switch(cur, st, true);
+            }
+        });
+    });
+}
+
+fn describe_live(st: &State) -> Vec<(TaskId, String)> {
+    st.live
+        .iter()
+        .map(|&t| {
+            let d = match &st.tasks[t].status {
+                Status::Blocked(d, _) => format!("{}:blocked:{}", st.tasks[t].name, d),
+                Status::Detached { desc, .. } => format!("{}:detached:{}", st.tasks[t].name, desc),
+                Status::Ready => format!("{}:ready", st.tasks[t].name),
+                Status::Running => format!("{}:running", st.tasks[t].name),
+                Status::Done => "done".into(),
+            };
+            (t, d)
+        })
+        .collect()
+}
+
 /// Run `main` as task 0 on the calling thread under the scheduler; returns when
 /// every task has finished.
 pub fn run<F: FnOnce()>(cfg: Config, main: F) -> Report {
@@ -455,7 +639,7 @@ pub fn run<F: FnOnce()>(cfg: Config, main: F) -> Report {
     }
     let sim = Arc::new(Sim {
         st: Mutex::new(State {
-            tasks: vec![TaskRec { status: Status::Running, info: 0, slot: Slot::new(), name: "main" }],
+            tasks: vec![TaskRec { status: Status::Running, info: 0, slot: Slot::new(), name: "main", tid: my_tid(), ret_seen: false, stat: None }],
             live: vec![0],
             current: 0,
             trace: Vec::new(),
@@ -471,10 +655,17 @@ pub fn run<F: FnOnce()>(cfg: Config, main: F) -> Report {
             max_live: 1,
             step_limit_hit: false,
             baton_free: false,
+            free_gen: 0,
+            sim_gen: SIM_GEN.fetch_add(1, Ordering::Relaxed) + 1,
+            implicit_out: 0,
         }),
         fin: Condvar::new(),
     });
     CUR.with(|c| *c.borrow_mut() = Some((sim.clone(), 0)));
+    if !cfg!(miri) {
+        *WATCHED.lock().unwrap() = Some(sim.clone());
+        start_monitor();
+    }
     let r = catch_unwind(AssertUnwindSafe(main));
     reattach_if_detached();
     {
@@ -493,6 +684,9 @@ pub fn run<F: FnOnce()>(cfg: Config, main: F) -> Report {
     let rep = make_report(&st, Outcome::Done);
     drop(st);
     CUR.with(|c| *c.borrow_mut() = None);
+    if !cfg!(miri) {
+        *WATCHED.lock().unwrap() = None;
+    }
     rep
 }
 
@@ -511,7 +705,7 @@ pub fn spawn(name: &'static str, f: Box<dyn FnOnce() + Send + 'static>) -> TaskI
     {
         let mut st = sim.st.lock().unwrap();
         id = st.tasks.len();
-        st.tasks.push(TaskRec { status: Status::Ready, info: 0, slot: slot.clone(), name });
+        st.tasks.push(TaskRec { status: Status::Ready, info: 0, slot: slot.clone(), name, tid: 0, ret_seen: false, stat: None });
         st.live.push(id);
         let l = st.live.len();
         if l > st.max_live {
@@ -522,6 +716,7 @@ pub fn spawn(name: &'static str, f: Box<dyn FnOnce() + Send + 'static>) -> TaskI
     os_spawn(Box::new(move || {
         slot.wait();
         CUR.with(|c| *c.borrow_mut() = Some((sim2.clone(), id)));
+        sim2.st.lock().unwrap().tasks[id].tid = my_tid();
         let r = catch_unwind(AssertUnwindSafe(f));
         reattach_if_detached();
         let mut st = sim2.st.lock().unwrap();
@@ -653,6 +848,7 @@ pub fn detached<R>(
     {
         let mut st = sim.st.lock().unwrap();
         st.tasks[me].status = Status::Detached { desc, cond: Box::new(cond), returned: false };
+        st.tasks[me].ret_seen = false;
         sim.switch(me, st, true);
     }
     let r = catch_unwind(AssertUnwindSafe(call));
@@ -683,6 +879,9 @@ fn reattach_if_detached() {
         if st.baton_free {
             // nobody else could run while the call was out: take the baton back directly
             st.baton_free = false;
+            if matches!(st.tasks[me].status, Status::Detached { desc, .. } if desc == IMPLICIT_DESC) {
+                st.implicit_out = st.implicit_out.saturating_sub(1);
+            }
             st.tasks[me].info &= !CHOSEN_BIT;
             st.tasks[me].status = Status::Running;
             st.current = me;
@@ -695,7 +894,13 @@ fn reattach_if_detached() {
             let d = *desc;
             let old = std::mem::replace(&mut st.tasks[me].status, Status::Ready);
             if let Status::Detached { cond, .. } = old {
-                st.tasks[me].status = Status::Detached { desc: d, cond, returned: true };
+                if d == IMPLICIT_DESC {
+                    // no model of when that call may return: it has returned, so it may go on
+                    st.implicit_out = st.implicit_out.saturating_sub(1);
+                    st.tasks[me].status = Status::Detached { desc: d, cond: Box::new(|| true), returned: true };
+                } else {
+                    st.tasks[me].status = Status::Detached { desc: d, cond, returned: true };
+                }
             }
         }
     }
